@@ -777,5 +777,62 @@ func genC07() {
 			g.def("c07_db_default_file_perm", "N", fmt.Sprintf("%d%%N", defaults[1]), "a file's a: line is left out for this permission (and owner 0:0)")
 		}
 	}
+	// ---- sortTarHeaders: one header per name (a later one overwrites), one child per header ----
+	// read by shape: in the loop over the header list, directly in its body (not under a
+	// condition), a map element is assigned the loop's value (all[name] = header: the LAST
+	// header of a name is the one kept) and a map element is appended to itself
+	// (children[dir] = append(children[dir], name): once per header, repeats included)
+	if fd := findFunc("pkg/apk/apk/installed.go", "", "sortTarHeaders"); fd != nil && fd.Type.Params != nil && len(fd.Type.Params.List) > 0 && len(fd.Type.Params.List[0].Names) > 0 {
+		param := fd.Type.Params.List[0].Names[0].Name
+		overwrites, perHeader, found := false, false, false
+		condAssign, condAppend := false, false
+		for _, st := range fd.Body.List {
+			rs, ok := st.(*ast.RangeStmt)
+			if !ok || exprText(rs.X) != param {
+				continue
+			}
+			found = true
+			val, _ := rs.Value.(*ast.Ident)
+			classify := func(as *ast.AssignStmt) (isAll, isAppend bool) {
+				if len(as.Lhs) != 1 || len(as.Rhs) != 1 {
+					return
+				}
+				ix, ok := as.Lhs[0].(*ast.IndexExpr)
+				if !ok {
+					return
+				}
+				if id, ok := as.Rhs[0].(*ast.Ident); ok && val != nil && id.Name == val.Name {
+					isAll = true
+				}
+				if call, ok := as.Rhs[0].(*ast.CallExpr); ok && exprText(call.Fun) == "append" && len(call.Args) == 2 && exprText(call.Args[0]) == exprText(ix) {
+					isAppend = true
+				}
+				return
+			}
+			for _, b := range rs.Body.List {
+				if as, ok := b.(*ast.AssignStmt); ok {
+					a, p := classify(as)
+					overwrites = overwrites || a
+					perHeader = perHeader || p
+					continue
+				}
+				// the same assignments under a condition: a header is kept / a child is listed only sometimes
+				ast.Inspect(b, func(n ast.Node) bool {
+					if as, ok := n.(*ast.AssignStmt); ok {
+						a, p := classify(as)
+						condAssign = condAssign || a
+						condAppend = condAppend || p
+					}
+					return true
+				})
+			}
+		}
+		if !found {
+			fail("pkg/apk/apk/installed.go:sortTarHeaders: no loop over the header list")
+		}
+		bs := map[bool]string{true: "true", false: "false"}
+		g.def("c07_sort_last_header_of_a_name_kept", "bool", bs[overwrites && !condAssign], "sortTarHeaders stores every header under its name unconditionally: a later header of a name overwrites the earlier one")
+		g.def("c07_sort_child_listed_per_header", "bool", bs[perHeader && !condAppend], "sortTarHeaders appends the name to its directory's children once per header, unconditionally")
+	}
 	g.write()
 }
